@@ -7,6 +7,7 @@ import AgpTpf.Properties.C12
 namespace AgpTpf.C12
 open AgpTpf
 
+set_option linter.unusedSimpArgs false in  -- the final test is given to `simp` in every spelling on purpose
 /-- the model's `findOverlaps` IS the source's `find_overlaps`, on the scaffold the name lookup returns and the index
     `add_scaffold` built — same result, same exception, for every scaffold (empty ones included), every bait and every
     `fuel > len(rows) + 1`. -/
@@ -16,27 +17,33 @@ theorem find_overlaps_is_source (sc : Scaffold) (bait : Fragment) (fuel : Nat) (
     Gen.Imp.IndexedAssembly_find_overlaps fuel bait byName index = findOverlaps sc.rows bait := by
   unfold Gen.Imp.IndexedAssembly_find_overlaps findOverlaps
   rw [hby, hidx]
-  simp only [bind, Except.bind]
+  -- `-zeta`: the source's local assignments stay `let`s, so that the search body's `m = …` can be named below
+  simp -zeta only [bind, Except.bind]
+  extract_lets
   have hlen : (buildIndex sc.rows).length = sc.rows.length := buildIndex_length _
   by_cases hemp : sc.rows = []
-  · simp [hemp]
+  · simp +zetaDelta [hemp]
   · have hne : sc.rows.isEmpty = false := by simpa using hemp
     have hne2 : (buildIndex sc.rows).isEmpty = false := by
       rw [List.isEmpty_eq_false_iff]; intro h; rw [h] at hlen; exact hemp (List.eq_nil_of_length_eq_zero hlen.symm)
-    simp only [hne, hne2, Bool.not_false, Bool.not_true, Bool.false_eq_true, if_false]
+    simp -zeta +zetaDelta only [hne, hne2, Bool.not_false, Bool.not_true, Bool.false_eq_true, if_false]
     generalize hI : buildIndex sc.rows = idx at *
     rw [ImpLookup.whileLoop_bsearch idx bait.start bait.stop _ _ ?hc ?hb fuel 0 idx.length (Nat.le_refl _) (by omega) _ ?hs]
     case hs => rfl
-    case hc => intro a z o; rfl
+    case hc => intro a z o; simp
     case hb =>
       intro a z o h1 h2
-      have hm : (a : Int) + pyDiv ((z : Int) - (a : Int)) 2 = ((a + (z - a) / 2 : Nat) : Int) := by
-        rw [ImpLookup.pyDiv_two a z (by omega)]; omega
+      -- name the midpoint `m` of the source and show by `omega` that it is the model's, however its arithmetic is written
+      dsimp -zeta only
+      extract_lets +onlyGivenNames m
+      have hm : m = ((a + (z - a) / 2 : Nat) : Int) := by
+        simp only [m, ImpLookup.pyDiv_two_ediv]; omega
+      clear_value m
+      subst hm
       unfold ImpLookup.bsStep
-      simp only [hm]
       have hml : a + (z - a) / 2 < idx.length := by omega
       generalize a + (z - a) / 2 = m at *
-      rw [ImpLookup.pyGet_idxAt idx m hml]
+      simp only [ImpLookup.pyGet_idxAt idx m hml]
       by_cases hm0 : m = 0
       · subst hm0
         simp [rowStart]
@@ -79,7 +86,7 @@ theorem find_overlaps_is_source (sc : Scaffold) (bait : Fragment) (fuel : Nat) (
       case hc =>
         intro i
         by_cases h : i ≤ (jO : Int) <;> simp [h] <;> cases pyGet sc.rows i <;> rfl
-      case hb => intro i; rfl
+      case hb => intro i; simp <;> omega
       rw [hi']
       simp only [Except.map]
       obtain ⟨j', hj', hj1, hj2, -, -⟩ :=
@@ -88,22 +95,28 @@ theorem find_overlaps_is_source (sc : Scaffold) (bait : Fragment) (fuel : Nat) (
       case hc =>
         intro j
         by_cases h : j ≥ (i' : Int) <;> simp [h] <;> cases pyGet sc.rows j <;> rfl
-      case hb => intro j; rfl
+      case hb => intro j; simp <;> omega
       rw [hj']
       simp only [Except.map]
+      -- the final test, whichever way the source spells it (`not i <= j`, `i > j`, `j < i`): `simp` gets the fact in every form
       by_cases hij : (i' : Int) ≤ j'
-      · rw [ImpLookup.slice_eq_pySlice sc.rows i' (j' + 1) (by omega) (by omega)]
+      · have hgt : ¬ ((i' : Int) > j') := by omega
+        have hlt : ¬ (j' < (i' : Int)) := by omega
+        have hge : j' ≥ (i' : Int) := hij
+        rw [ImpLookup.slice_eq_pySlice sc.rows i' (j' + 1) (by omega) (by omega)]
         have e : ((i' : Int) - 1).toNat = i' - 1 := by omega
         by_cases hi0 : i' = 0
         · have hz : (i' : Int) = 0 := by omega
-          simp only [hij, decide_true, Bool.not_true, Bool.false_eq_true, if_false, not_true_eq_false]
-          simp only [hz, decide_true, if_true]
+          simp [hij, hgt, hlt, hge, hi0, hz]
           cases pyGet idx j' <;> rfl
         · have hi0' : ¬ ((i' : Int) = 0) := by omega
-          simp [hij, hi0, e, ImpLookup.pyGet_pred idx i' hi0 (by omega)]
+          simp [hij, hgt, hlt, hge, hi0, hi0', e, ImpLookup.pyGet_pred idx i' hi0 (by omega)]
           cases pyGet idx j' <;> rfl
-      · simp [hij]
-        rfl
+      · have hgt : (i' : Int) > j' := by omega
+        have hlt : j' < (i' : Int) := by omega
+        have hge : ¬ (j' ≥ (i' : Int)) := hij
+        simp [hij, hgt, hlt, hge]
+        try rfl
 
 /-- the demo scaffold of `Properties/C12.lean` as the assembly sees it: looked up by name, with the index `add_scaffold` built -/
 def demoByName : Str → R Scaffold := fun n => if n = "s".toList then .ok { name := "s".toList, rows := demo } else .error .key
